@@ -1,5 +1,6 @@
 // Positive controls: constructs the zero-instance rules must find on every run (they are NOT part of amgcl).
 #include <algorithm>
+#include <vector>
 #include <amgcl/backend/builtin.hpp>
 namespace verif_control {
 // F.binary-search-sorted must report this function: a binary search over the column indices of a matrix that was not sorted here
@@ -7,6 +8,14 @@ inline bool has_entry(const amgcl::backend::crs<double> &A, ptrdiff_t i, ptrdiff
     return std::binary_search(A.col + A.ptr[i], A.col + A.ptr[i + 1], c);
 }
 }
+namespace verif_control {
+// F.resize-is-not-reset must report scratch::prepare: a reused member buffer "initialised" by resize(n, v)
+struct scratch {
+    std::vector<double> buf;
+    double prepare(size_t n) { buf.resize(n, 0.0); double s = 0; for (size_t i = 0; i < n; ++i) { s += buf[i]; buf[i] = 1.0; } return s; }
+};
+}
+double unit_control_scratch(size_t n) { verif_control::scratch s; return s.prepare(n) + s.prepare(n + 1); }
 bool unit_controls(const amgcl::backend::crs<double> &A) { return verif_control::has_entry(A, 0, 0); }
 
 // instantiation only (not a control): move construction / move assignment / swap of the owning containers (C17 G.move-transfers-all)
